@@ -30,6 +30,7 @@ type RenderContext struct {
 	blockDefs          map[string][]*BlockNode  // Definitions of each block along the extends chain, most derived first
 	currentDefs        []*BlockNode             // Definition chain of the block being rendered (for parent() function)
 	currentLevel       int                      // Index into currentDefs of the definition being rendered
+	evalDepth          int                      // Number of expression evaluations in progress in this context
 	blockDepth         int                      // Number of block renderings in progress (guards against recursive blocks)
 	blockOwners        map[*BlockNode]*Template // Template each registered block definition was written in
 	inParentCall       bool                     // Flag to indicate if we're currently rendering a parent() call
@@ -121,6 +122,7 @@ func NewRenderContext(env *Environment, context map[string]interface{}, engine *
 	ctx.currentDefs = nil
 	ctx.currentLevel = 0
 	ctx.blockDepth = 0
+	ctx.evalDepth = 0
 	ctx.parent = nil
 	ctx.inParentCall = false
 	ctx.sandboxed = false
@@ -688,6 +690,19 @@ func (ctx *RenderContext) callMinFunction(args []interface{}) (interface{}, erro
 
 // EvaluateExpression evaluates an expression node
 func (ctx *RenderContext) EvaluateExpression(node Node) (interface{}, error) {
+	// A long chain of binary operators parses without nesting but evaluates
+	// recursively: bound that too (see maxExpressionDepth)
+	ctx.evalDepth++
+	if ctx.evalDepth > maxExpressionDepth {
+		ctx.evalDepth--
+		return nil, errExpressionTooDeep
+	}
+	value, err := ctx.evaluateExpression(node)
+	ctx.evalDepth--
+	return value, err
+}
+
+func (ctx *RenderContext) evaluateExpression(node Node) (interface{}, error) {
 	if node == nil {
 		return nil, nil
 	}
